@@ -75,6 +75,16 @@ func cTplMsg(id, ver int) []byte {
 	return append(msg, set...)
 }
 
+// cVarTplMsg: interfaceName as a variable-length field (IPFIX) / a short fixed string (NetFlow v9 has no variable length)
+func cVarTplMsg(id int) []byte {
+	rec := append(append(cU16(id), cU16(2)...), append(append(cU16(82), cU16(cVarLen)...), append(cU16(210), cU16(3)...)...)...)
+	set := append(append(cU16(2), cU16(4+len(rec))...), rec...)
+	msg := append(append([]byte{0, 10}, cU16(16+len(set))...), make([]byte, 12)...)
+	return append(msg, set...)
+}
+
+const cVarLen = 65535
+
 func cOptsMsg(id, a, b int) []byte {
 	rec := append(append(append(cU16(id), cU16(3)...), cU16(2)...), append(append(cU16(210), cU16(a)...), append(append(cU16(210), cU16(b)...), append(cU16(210), cU16(1)...)...)...)...)
 	set := append(append(cU16(3), cU16(4+len(rec))...), rec...)
@@ -84,6 +94,18 @@ func cOptsMsg(id, a, b int) []byte {
 
 func cDataMsg(id int) []byte {
 	body := make([]byte, 100)
+	if id == cStableID {
+		// (with the variable-length template: records "eth0", "loopback0", ... each followed by 3 octets; with the
+		// fixed-length versions of the recorded runs these are just 100 octets)
+		body = body[:0]
+		for _, n := range []string{"eth0", "loopback0", "ge-0/0/1", "x"} {
+			body = append(append(append(body, byte(len(n))), n...), 1, 2, 3)
+		}
+		for len(body) < 100 {
+			body = append(body, 0)
+		}
+		body = body[:100]
+	}
 	set := append(append(cU16(id), cU16(4+len(body))...), body...)
 	msg := append(append([]byte{0, 10}, cU16(16+len(set))...), make([]byte, 12)...)
 	return append(msg, set...)
@@ -261,7 +283,11 @@ func TestVerifCacheStress(t *testing.T) {
 					if record {
 						rec.add(cEvent{G: cGoid(), Ev: "AnnCall", Ver: ver})
 					}
-					if _, err := NewDecoder(e, cTplMsg(id, ver)).Decode(cache); err != nil {
+					tm := cTplMsg(id, ver)
+					if id == cStableID && !record {
+						tm = cVarTplMsg(id) // ... and it holds a variable-length field: decoding data resolves lengths per record
+					}
+					if _, err := NewDecoder(e, tm).Decode(cache); err != nil {
 						t.Errorf("template datagram rejected: %v", err)
 					}
 					if record { // the announcement has been processed: from now on the cache answers with it (or a later one)
